@@ -578,6 +578,57 @@ def run(ctx):
             R.des_json(v2, A[3], [A[1]], True, None, "payload-swap", rfc7797=A[6] is not None)
 
         # ------------------------------------------------------------------
+        # ES* name x EC curve x hash: tokens made OUTSIDE the library (pyca directly), every
+        # combination incl. all mismatches; accepted iff curve and hash are the ones the name stands for
+        # ------------------------------------------------------------------
+        from cryptography.hazmat.primitives.asymmetric import ec as _ec
+        from cryptography.hazmat.primitives import hashes as _hs
+        from cryptography.hazmat.primitives.asymmetric.utils import decode_dss_signature as _dds
+        from joserfc import jwt as _jwt
+        ES = {"ES256": ("P-256", "sha256"), "ES384": ("P-384", "sha384"), "ES512": ("P-521", "sha512"), "ES256K": ("secp256k1", "sha256")}
+        ECK = {"P-256": "p256", "P-384": "p384", "P-521": "p521", "secp256k1": "k256"}
+        HS_ = {"sha256": _hs.SHA256, "sha384": _hs.SHA384, "sha512": _hs.SHA512}
+        claims = b'{"sub":"ec-matrix"}'
+        for name, (crv, hname) in ES.items():
+            inst = jws.JWSRegistry.algorithms[name]
+            for kcrv, kn in ECK.items():
+                k = K[kn]
+                pub = J.pubkey_of(k)
+                L = (k.curve_key_size + 7) // 8
+                for hn, hcls in HS_.items():
+                    good = (kcrv == crv and hn == hname)
+                    hdr = {"alg": name}
+                    hs_ = b64u(json.dumps(hdr, separators=(",", ":")).encode())
+                    ps_ = b64u(claims)
+                    si = hs_ + b"." + ps_
+                    r_, s_ = _dds(k.private_key.sign(si, _ec.ECDSA(hcls())))
+                    sig = r_.to_bytes(L, "big") + s_.to_bytes(L, "big")
+                    tok = si + b"." + b64u(sig)
+                    what = "ec-matrix:%s:%s:%s" % (name, kcrv, hn)
+                    R.des_compact(tok, pub, [name], not good, (hdr, claims), what if not good else "valid")
+                    flat = {"payload": ps_.decode(), "protected": hs_.decode(), "signature": b64u(sig).decode()}
+                    R.des_json(flat, pub, [name], not good, ([hdr], claims), what if not good else "valid")
+                    gen = {"payload": ps_.decode(), "signatures": [{"protected": hs_.decode(), "signature": b64u(sig).decode()}]}
+                    R.des_json(gen, pub, [name], not good, ([hdr], claims), what if not good else "valid", coq=False)
+                    rec.take()
+                    rj = call(_jwt.decode, tok.decode(), pub, [name])
+                    rec.take()
+                    if (rj[0] == "ok") != good:
+                        ctx.violation({"kind": "ec-alg-curve", "fn": "jwt.decode"}, "jwt.decode of a token whose header says %s, signed on %s with %s: %r" % (name, kcrv, hn, rj[1]),
+                                      {"fn": "jwt.decode", "token": tok.decode(), "key": pub.as_dict(), "algorithms": [name]})
+                    # the wrapper alone
+                    rec.take()
+                    rv = call(inst.verify, si, sig, pub)
+                    rows, calls = rec.take()
+                    ctx.note_case(("ec-matrix-wrapper", name, kcrv, hn))
+                    R.note("ec-matrix-wrapper")
+                    if (rv == ("ok", True)) != good:
+                        ctx.violation({"kind": "ec-alg-curve", "fn": "ECAlgModel.verify"}, "%s.verify with a key on %s, signature made with %s: %r" % (name, kcrv, hn, rv[1]),
+                                      {"fn": "ec.verify", "alg": name, "curve": kcrv, "hash": hn})
+                    R.add("JAlgVerify %s %s %s %s %s %s" % (J.c_table(rows), c_str(name), J.c_key(pub), c_hex(si), c_hex(sig), J.c_res(rv, c_bool)),
+                          {"fn": "ec.verify", "what": what}, force=True)
+
+        # ------------------------------------------------------------------
         # the algorithm wrappers alone (none, ECDSA length gate)
         # ------------------------------------------------------------------
         none_alg = jws.JWSRegistry.algorithms["none"]
